@@ -380,6 +380,7 @@ func genThrottleHistory(o *c.Out, rng *c.Rng, t0 int64) {
 	n := rng.Range(6, 18)
 	vid := 100
 	var deadlines []int64
+	var live [][2]string
 	for len(r.k.Ops) < n {
 		switch x := rng.Intn(100); {
 		case x < 28:
@@ -389,14 +390,14 @@ func genThrottleHistory(o *c.Out, rng *c.Rng, t0 int64) {
 			}
 			vid++
 			op := TOp{Kind: "resp", Method: c.Pick(rng, methods), URL: c.Pick(rng, urls), Vid: vid,
-				Status:  c.Pick(rng, []int{429, 429, 429, 503, 200}),
+				Status:  c.Pick(rng, []int{429, 429, 429, 429, 503, 200}),
 				HdrKind: c.Pick(rng, []string{"ok", "ok", "ok", "ok", "ok", "missing", "wrongcase", "garbage"})}
 			if abs {
 				nowG := r.now() / G
 				secG := (r.now() / sec) * 512 // whole second of the clock, in grid units
 				op.RAg = c.Pick(rng, []int64{secG + 512, secG + 1024, secG + 1024, secG + 1536, nowG + 2, nowG + 1, nowG, nowG - 1, secG, secG - 512})
 			} else {
-				op.RAg = c.Pick(rng, []int64{2, 2, 1, 512, 1024, 1536, 0, -512, 768})
+				op.RAg = c.Pick(rng, []int64{2, 1, 512, 512, 1024, 1536, 1536, 0, -512, 768})
 			}
 			r.do(op)
 			if last := r.k.Ops[len(r.k.Ops)-1]; last.Stored {
@@ -405,9 +406,22 @@ func genThrottleHistory(o *c.Out, rng *c.Rng, t0 int64) {
 					e += last.At
 				}
 				deadlines = append(deadlines, e)
+				live = append(live, [2]string{last.Method, last.URL})
 			}
 		case x < 65:
-			r.do(TOp{Kind: "req", Method: c.Pick(rng, methods), URL: c.Pick(rng, urls)})
+			q := TOp{Kind: "req", Method: c.Pick(rng, methods), URL: c.Pick(rng, urls)}
+			if len(live) > 0 && rng.Chance(2, 3) {
+				l := c.Pick(rng, live)
+				q.Method, q.URL = l[0], l[1]
+				if rng.Chance(1, 6) { // near miss
+					if rng.Bool() {
+						q.Method = c.Pick(rng, methods)
+					} else {
+						q.URL = c.Pick(rng, urls)
+					}
+				}
+			}
+			r.do(q)
 		case x < 90:
 			var targets []int64
 			for _, e := range deadlines {
@@ -417,8 +431,8 @@ func genThrottleHistory(o *c.Out, rng *c.Rng, t0 int64) {
 					}
 				}
 			}
-			d := c.Pick(rng, []int64{0, 1, G - 1, G, G / 2, sec})
-			if len(targets) > 0 && rng.Chance(4, 5) {
+			d := c.Pick(rng, []int64{0, 1, G - 1, G, G / 2, sec / 4, sec})
+			if len(targets) > 0 && rng.Chance(3, 5) {
 				d = c.Pick(rng, targets)
 			}
 			r.do(TOp{Kind: "adv", D: d})
